@@ -115,11 +115,12 @@ class ModelServer:
 class World:
     """per-path harness state"""
 
-    def __init__(self, I, ctx):
+    def __init__(self, I, ctx, keep_env=False):
         self.I, self.ctx = I, ctx
         I.ctx = ctx
-        I.steps = 0
-        I.env = {}
+        if not keep_env:
+            I.steps = 0
+            I.env = {}
         self.nver = 0
         self.nclock = 0
         self.clock_terms = []
